@@ -585,7 +585,9 @@ def c06(ctx):
                 "buffer; both must equal the spec (hence each other). M: Stage1Block.tla -- the bit-parallel block algorithm with its three "
                 "carries (the algorithm the assembly implements) equals the transducer on every class string up to the bound for block "
                 "sizes 2, 4 (8); shift/filler lemmas that justify the placements, monotone positions, no structural inside a string. V: generated, mutated and random inputs parsed end to end on both kernels: "
-                "same error, identical tape and string buffer. Non-trivial = string containing a quote or backslash.")
+                "same error, identical tape and string buffer; Stage1Driver.tla (how positions are cut into index buffers: flush threshold, "
+                "tail call, stripped index, final test) - theorems for scaled-down constants, and recorded stage-1 runs of 1-3 buffers on "
+                "both kernels equal to the driver evaluated with the real constants. Non-trivial = string containing a quote or backslash.")
     q = quick(ctx)
     # M: the bit-parallel block algorithm (odd-backslash arithmetic, prefix-XOR quote mask, pseudo-structural shift, carries)
     # equals the byte-at-a-time transducer on every input over the byte classes, for several block sizes
@@ -607,7 +609,40 @@ def c06(ctx):
         ctx.vh(args, timeout=7200)
         os.remove(r["dump"])
     ctx.vh(["v-kernels", "-seed", str(ctx.seed), "-n", "1500" if q else "30000", "-property", "C06"], timeout=7200)
+    driver_conformance(ctx, 24 if q else 240)
     ctx.exhaustive = True
+
+
+def driver_conformance(ctx, n):
+    """M: Stage1Driver's theorems for scaled-down block size / flush threshold (exhaustive); V: recorded stage-1 runs on both
+    kernels with the real constants must be exactly what Stage1Driver computes.  What the properties demand (same positions and
+    verdict on both kernels, no buffer beyond its physical size) is judged in the harness and counts as a violation; the exact
+    cutting policy is internal, so a run that only deviates from the specification's cuts is reported as specification drift."""
+    q = quick(ctx)
+    for b, f, nd in ((2, 2, "FALSE"), (4, 3, "TRUE")) if q else ((2, 2, "FALSE"), (2, 3, "TRUE"), (4, 2, "TRUE"), (4, 3, "FALSE"), (3, 4, "TRUE")):
+        ctx.tlc("MC_Stage1Driver", consts={"B": b, "FLUSH": f, "ND": nd, "MaxLen": 6 if q else 7},
+                label="index-buffer driver B=%d FLUSH=%d nd=%s" % (b, f, nd), timeout=3000)
+    c = live_consts(ctx)
+    d = ctx.dir("driver")
+    tr, ix = os.path.join(d, "driver.ndjson"), os.path.join(d, "driver-index.json")
+    ctx.vh(["v-driver", "-trace", tr, "-index", ix, "-seed", str(ctx.seed), "-n", str(n), "-property", ctx.prop], timeout=3000)
+    r = ctx.tlc("Stage1DriverTrace", consts={"FLUSH": c["flush_at"]}, files={"trace.ndjson": open(tr, "rb").read()}, workers=1,
+                timeout=3000, label="stage-1 runs vs Stage1Driver (real constants)", check=False)
+    res_path = os.path.join(r["dir"], "result.json")
+    if not r["ok"] or not os.path.exists(res_path):
+        raise Infra("driver trace validation did not complete:\n%s" % r["out"][-3000:])
+    res = json.load(open(res_path))
+    idx = json.load(open(ix))
+    if res["consumed"] != len(idx):
+        raise Infra("driver trace spec consumed %d of %d events" % (res["consumed"], len(idx)))
+    ctx.counters["driver_runs_validated"] = res["consumed"]
+    ctx.counters["driver_runs_not_as_specified"] = len(res["bad"])
+    ctx.traces += res["consumed"]
+    if res["bad"]:
+        log("[driver] SPECIFICATION DRIFT: %d of %d recorded stage-1 runs are not cut into index buffers the way Stage1Driver.tla "
+            "says (positions, verdict and buffer sizes are judged separately): %s" % (
+                len(res["bad"]), res["consumed"], ", ".join("%s %s" % (b_, idx[b_]["buffer_lengths"]) for b_ in res["bad"][:5])))
+    return res
 
 
 STREAMS = {
@@ -885,6 +920,30 @@ def selftest(ctx):
         run_trace(lines[:i] + [json.dumps(ev)] + lines[i + 1:], "one buffer sent from the wrong ring slot")
         i = rnd.choice(recvd)
         run_trace(lines[:i] + [lines[i], lines[i]] + lines[i + 1:], "one Recvd event duplicated")
+    if pid == "C06":
+        c = live_consts(ctx)
+        d = ctx.dir("st")
+        tr, ix = os.path.join(d, "driver.ndjson"), os.path.join(d, "driver-index.json")
+        ctx.vh(["v-driver", "-trace", tr, "-index", ix, "-seed", str(ctx.seed), "-n", "6", "-property", pid], merge=False)
+        evs = [json.loads(l) for l in open(tr)]
+        multi = [e for e in evs if len(e["bufs"]) >= 2 and len(e["bufs"][1]) >= 1]
+        muts = []
+        if multi:
+            e = json.loads(json.dumps(rnd.choice(multi)))
+            e["bufs"][0].append(e["bufs"][1].pop(0))                 # the cut between two buffers moved by one index
+            muts.append(("cut between two index buffers moved by one", e))
+            e = json.loads(json.dumps(rnd.choice(multi)))
+            e["bufs"] = [e["bufs"][0] + e["bufs"][1]] + e["bufs"][2:]    # two buffers merged
+            muts.append(("two index buffers merged", e))
+        e = json.loads(json.dumps(rnd.choice(evs)))
+        e["ok"] = not e["ok"]
+        muts.append(("stage-1 verdict flipped", e))
+        for name, e in muts:
+            r = ctx.tlc("Stage1DriverTrace", consts={"FLUSH": c["flush_at"]}, files={"trace.ndjson": (json.dumps(e) + "\n").encode()},
+                        workers=1, check=False, label="selftest " + name)
+            res = json.load(open(os.path.join(r["dir"], "result.json")))
+            if e["id"] not in res["bad"]:
+                failures.append("Stage1DriverTrace accepted a run with " + name)
     if pid == "C03":
         import numexact
         recs = [("0.1", 0x3fb999999999999a), ("1e23", 0x44b52d02c7e14af6), ("9007199254740993", 0x4340000000000001), ("5e-324", 1)]
